@@ -11,6 +11,8 @@ type FullScanPlan struct {
 	Storage Storage
 	Filter  *FilterExec
 	iter    Cursor
+	// done is set once the end of the scan was seen: a finished scan reads nothing more
+	done bool
 }
 
 func NewFullScanPlan(s Storage, f *FilterExec) Plan {
@@ -29,6 +31,7 @@ func (p *FullScanPlan) Explain() []string {
 }
 
 func (p *FullScanPlan) Init() (err error) {
+	p.done = false
 	p.iter, err = p.Storage.Cursor()
 	if err != nil {
 		return err
@@ -37,12 +40,16 @@ func (p *FullScanPlan) Init() (err error) {
 }
 
 func (p *FullScanPlan) Next(ctx *ExecuteCtx) ([]byte, []byte, error) {
+	if p.done {
+		return nil, nil, nil
+	}
 	for {
 		key, val, err := p.iter.Next()
 		if err != nil {
 			return nil, nil, err
 		}
 		if key == nil {
+			p.done = true
 			break
 		}
 		ok, err := p.Filter.Filter(NewKVP(key, val), ctx)
@@ -61,7 +68,7 @@ func (p *FullScanPlan) Batch(ctx *ExecuteCtx) ([]KVPair, error) {
 		ret         = make([]KVPair, 0, PlanBatchSize)
 		filterBatch = make([]KVPair, 0, PlanBatchSize)
 		count       = 0
-		finish      = false
+		finish      = p.done
 		chooseIdxes = make([]int, 0, 2*PlanBatchSize)
 		bidx        = 0
 	)
@@ -73,6 +80,7 @@ func (p *FullScanPlan) Batch(ctx *ExecuteCtx) ([]KVPair, error) {
 				return nil, err
 			}
 			if key == nil {
+				p.done = true
 				finish = true
 				break
 			}
@@ -105,6 +113,8 @@ type PrefixScanPlan struct {
 	Filter  *FilterExec
 	Prefix  string
 	iter    Cursor
+	// done is set once the end of the scan was seen: a finished scan reads nothing more
+	done bool
 }
 
 func NewPrefixScanPlan(s Storage, f *FilterExec, p string) Plan {
@@ -116,6 +126,7 @@ func NewPrefixScanPlan(s Storage, f *FilterExec, p string) Plan {
 }
 
 func (p *PrefixScanPlan) Init() (err error) {
+	p.done = false
 	p.iter, err = p.Storage.Cursor()
 	if err != nil {
 		return err
@@ -124,6 +135,9 @@ func (p *PrefixScanPlan) Init() (err error) {
 }
 
 func (p *PrefixScanPlan) Next(ctx *ExecuteCtx) ([]byte, []byte, error) {
+	if p.done {
+		return nil, nil, nil
+	}
 	pb := []byte(p.Prefix)
 	for {
 		key, val, err := p.iter.Next()
@@ -131,11 +145,13 @@ func (p *PrefixScanPlan) Next(ctx *ExecuteCtx) ([]byte, []byte, error) {
 			return nil, nil, err
 		}
 		if key == nil {
+			p.done = true
 			break
 		}
 
 		// Key not have the prefix
 		if !bytes.HasPrefix(key, pb) {
+			p.done = true
 			break
 		}
 
@@ -156,7 +172,7 @@ func (p *PrefixScanPlan) Batch(ctx *ExecuteCtx) ([]KVPair, error) {
 		ret         = make([]KVPair, 0, PlanBatchSize)
 		filterBatch = make([]KVPair, 0, PlanBatchSize)
 		count       = 0
-		finish      = false
+		finish      = p.done
 		pb          = []byte(p.Prefix)
 		chooseIdxes = make([]int, 0, 2*PlanBatchSize)
 		bidx        = 0
@@ -169,11 +185,13 @@ func (p *PrefixScanPlan) Batch(ctx *ExecuteCtx) ([]KVPair, error) {
 				return nil, err
 			}
 			if key == nil {
+				p.done = true
 				finish = true
 				break
 			}
 			// Key not have the prefix
 			if !bytes.HasPrefix(key, pb) {
+				p.done = true
 				finish = true
 				break
 			}
@@ -215,6 +233,8 @@ type RangeScanPlan struct {
 	Start   []byte
 	End     []byte
 	iter    Cursor
+	// done is set once the end of the scan was seen: a finished scan reads nothing more
+	done bool
 }
 
 func NewRangeScanPlan(s Storage, f *FilterExec, start []byte, end []byte) Plan {
@@ -227,6 +247,7 @@ func NewRangeScanPlan(s Storage, f *FilterExec, start []byte, end []byte) Plan {
 }
 
 func (p *RangeScanPlan) Init() (err error) {
+	p.done = false
 	p.iter, err = p.Storage.Cursor()
 	if err != nil {
 		return err
@@ -241,17 +262,22 @@ func (p *RangeScanPlan) Init() (err error) {
 }
 
 func (p *RangeScanPlan) Next(ctx *ExecuteCtx) ([]byte, []byte, error) {
+	if p.done {
+		return nil, nil, nil
+	}
 	for {
 		key, val, err := p.iter.Next()
 		if err != nil {
 			return nil, nil, err
 		}
 		if key == nil {
+			p.done = true
 			break
 		}
 
 		// Key is greater than End
 		if p.End != nil && bytes.Compare(key, p.End) > 0 {
+			p.done = true
 			break
 		}
 
@@ -272,7 +298,7 @@ func (p *RangeScanPlan) Batch(ctx *ExecuteCtx) ([]KVPair, error) {
 		ret         = make([]KVPair, 0, PlanBatchSize)
 		filterBatch = make([]KVPair, 0, PlanBatchSize)
 		count       = 0
-		finish      = false
+		finish      = p.done
 		chooseIdxes = make([]int, 0, 2*PlanBatchSize)
 		bidx        = 0
 	)
@@ -284,11 +310,13 @@ func (p *RangeScanPlan) Batch(ctx *ExecuteCtx) ([]KVPair, error) {
 				return nil, err
 			}
 			if key == nil {
+				p.done = true
 				finish = true
 				break
 			}
 			// Key is greater than End
 			if p.End != nil && bytes.Compare(key, p.End) > 0 {
+				p.done = true
 				finish = true
 				break
 			}
